@@ -23,9 +23,11 @@ import (
 
 	"github.com/simimpact/srsim/pkg/engine/equip/lightcone"
 	"github.com/simimpact/srsim/pkg/engine/equip/relic"
+	"github.com/simimpact/srsim/pkg/engine/event"
 	"github.com/simimpact/srsim/pkg/engine/logging"
 	"github.com/simimpact/srsim/pkg/engine/target/character"
 	"github.com/simimpact/srsim/pkg/engine/target/enemy"
+	"github.com/simimpact/srsim/pkg/key"
 	"github.com/simimpact/srsim/pkg/logic/gcs"
 	"github.com/simimpact/srsim/pkg/logic/gcs/eval"
 	"github.com/simimpact/srsim/pkg/logic/gcs/parse"
@@ -355,10 +357,52 @@ type recLogger struct {
 	keep     bool
 	lastName string
 	limit    int // abort (panic with watchdogAbort) beyond this many events; 0 = no limit
+
+	// property C09 on real content: what the result has to add up to, taken from the log
+	chars, enemies     map[key.TargetID]bool
+	dealt, taken       float64 // sums of TotalDamage of the logged hits, in log order
+	absDealt, absTaken float64
+	negHit             bool
+	terminations       int
+	termAV             float64
 }
 
 func newRecLogger(keep bool, limit int) *recLogger {
-	return &recLogger{h: fnv.New64a(), keep: keep, limit: limit}
+	return &recLogger{h: fnv.New64a(), keep: keep, limit: limit, chars: map[key.TargetID]bool{}, enemies: map[key.TargetID]bool{}}
+}
+
+// resultClause returns the first clause of property C09 that the returned result violates against the log
+// ("" if it adds up).  Totals: equal to the log-order sums up to rounding (the statistics subscriber sees
+// nested hits in another order than they are logged; theorem C09_totals_are_sums_of_hits); series: equal
+// length, non-decreasing (for non-negative hits), ending at the totals; total AV: the clock in Termination.
+func (l *recLogger) resultClause(r *model.IterationResult) string {
+	close := func(a, b, scale float64) bool {
+		return a == b || math.Abs(a-b) <= scale*math.Ldexp(1, -40)
+	}
+	switch {
+	case l.terminations != 1 || l.lastName != "Termination":
+		return "not exactly one Termination, last"
+	case !close(r.TotalDamageDealt, l.dealt, l.absDealt):
+		return fmt.Sprintf("total damage dealt %v is not the sum %v of the hits taken by enemies", r.TotalDamageDealt, l.dealt)
+	case !close(r.TotalDamageTaken, l.taken, l.absTaken):
+		return fmt.Sprintf("total damage taken %v is not the sum %v of the hits taken by characters", r.TotalDamageTaken, l.taken)
+	case r.TotalAv != l.termAV:
+		return fmt.Sprintf("total action value %v is not the clock %v of the Termination", r.TotalAv, l.termAV)
+	case len(r.CumulativeDamageDealtByCycle) != len(r.CumulativeDamageTakenByCycle) || len(r.CumulativeDamageDealtByCycle) == 0:
+		return "per-cycle series of different or zero length"
+	}
+	d, t := r.CumulativeDamageDealtByCycle, r.CumulativeDamageTakenByCycle
+	if d[len(d)-1] != r.TotalDamageDealt || t[len(t)-1] != r.TotalDamageTaken {
+		return "a per-cycle series does not end at its total"
+	}
+	if !l.negHit {
+		for i := 1; i < len(d); i++ {
+			if d[i] < d[i-1] || t[i] < t[i-1] {
+				return fmt.Sprintf("a per-cycle series decreases at cycle %d", i)
+			}
+		}
+	}
+	return ""
 }
 
 func (l *recLogger) Log(e any) {
@@ -368,6 +412,30 @@ func (l *recLogger) Log(e any) {
 	io.WriteString(l.h, name)
 	canon(l.h, reflect.ValueOf(e), 0)
 	io.WriteString(l.h, "\n")
+	switch v := e.(type) {
+	case event.CharactersAdded:
+		for _, c := range v.Characters {
+			l.chars[c.ID] = true
+		}
+	case event.EnemiesAdded:
+		for _, c := range v.Enemies {
+			l.enemies[c.ID] = true
+		}
+	case event.HitEnd:
+		if !(v.TotalDamage >= 0) {
+			l.negHit = true
+		}
+		if l.enemies[v.Defender] {
+			l.dealt += v.TotalDamage
+			l.absDealt += math.Abs(v.TotalDamage)
+		} else if l.chars[v.Defender] {
+			l.taken += v.TotalDamage
+			l.absTaken += math.Abs(v.TotalDamage)
+		}
+	case event.Termination:
+		l.terminations++
+		l.termAV = v.TotalAV
+	}
 	if l.keep {
 		l.names = append(l.names, name)
 		l.hashes = append(l.hashes, l.h.Sum64())
@@ -384,7 +452,7 @@ func (l *recLogger) sum() int64 { return int64(l.h.Sum64() >> 2) }
 // ---------------------------------------------------------------------------------------
 
 type runObs struct {
-	status  int // 0 result, 1 error, 2 panic, 3 watchdog abort, 4 script does not parse
+	status  int // 0 result, 1 error, 2 panic, 3 watchdog abort, 4 script does not parse, 5 result does not add up (C09)
 	n       int
 	logHash int64
 	resHash int64
@@ -458,6 +526,11 @@ func runReal(cfg *model.SimConfig, list *gcs.ActionList, seed int64, rec *recLog
 		obs = runObs{status: 1, msg: err.Error()}
 	} else {
 		obs = runObs{status: 0, resHash: resultHash(res)}
+		if rec != nil {
+			if cl := rec.resultClause(res); cl != "" {
+				obs.status, obs.msg = 5, cl
+			}
+		}
 	}
 	if rec != nil {
 		obs.n, obs.logHash, obs.last = rec.n, rec.sum(), rec.lastName
